@@ -27,6 +27,8 @@ AUDIT = [
     (r"xlsx::offset_cell_name$", r"R-ARITH\|i64", "the offsets are differences of u32 coordinates plus a u32 (|offset| < 2^34), the cell coordinate is a u32: the i64 sum cannot overflow"),
     (r"xlsx::cells_reader::XlsxCellReader::next_formula$", r"R-ARITH\|u32 src32 \+ iter", "i <= end - start, so start + i <= end (a u32)"),
     (r"xlsb::Xlsb::read_workbook::\{closure#0\}$", r"R-INDEX\|index src32 of", "the arm's match guard is `p >= 0 && (p as usize) < sheets.len()`"),
+    (r"xls::parse_formula$", r"R-INDEX\|\[a\.\.\] bounded64 of sub\(arg1\)$", "`rgce = &rgce[1 + used..]` (fix 32fe2c7): `used` = 1 + the byte count XlsEncoding::decode_to returns for the slice `&rgce[2..]`, which is at most that slice's length (decode_to slices `&stream[..bytes]` itself, proved there), so 1 + used <= rgce.len(); the analysis has no return summary for tuple results"),
+    (r"xls::(parse_formula|read_unicode_string_no_cch)$", r"R-ARITH\|u64 1 \+ src64$", "1 + the byte count returned by XlsEncoding::decode_to (fix 32fe2c7): the count is bounded by the length of a slice in memory (<= isize::MAX), so the addition cannot overflow"),
     (r"ods::get_range$", r"R-INDEX\|\[a\.\.\] unk of local$", "`&empty_cells[col_min..]` (fix d253b15): empty_cells has col_max + 1 entries and col_min <= col_max, both being positions of non-empty cells (position <= rposition of the same row) in rows that exist because row_min is Some"),
     (r"ods::get_range$", r"R-INDEX", "cols[] holds prefix lengths of `cells` (pushed by read_table after every row, monotone, last == cells.len()); col_min / col_max are positions of non-empty cells inside the rows that reach these slices (empty rows `continue` first); the Less/Equal/Greater arms compare row.len() with col_max + 1"),
     (r"ods::get_range$", r"R-ALLOC", "cells_len and col_max + 1 are extents of vectors already materialised from the input (indices, not repeat counts)"),
@@ -49,6 +51,8 @@ MANUAL_DEMO = {
 # sites that appeared after the triage run (e.g. through a fix: commit that follows the surrounding unchecked style):
 # fn -> [(key, demonstration)]
 LATER = {
+    "xls::parse_formula": [("xls::parse_formula|R-INDEX|[a..] bounded64 of sub(arg1)", "audited"), ("xls::parse_formula|R-ARITH|u64 1 + src64", "audited")],
+    "xls::read_unicode_string_no_cch": [("xls::read_unicode_string_no_cch|R-ARITH|u64 1 + src64", "audited")],
     "ods::get_range": [("ods::get_range|R-INDEX|[a..] unk of local", "audited")],
     "xlsb::parse_formula": [
         ("xlsb::parse_formula|R-INDEX|[..b] 2 of sub(sub(arg1))", "kf_c06_xlsb_formula_tokens_truncated: token 0x19 0x04 followed by 0 or 1 payload bytes panics at the cOffset read (fix 5cb8b00 reads it as unchecked as its neighbours)"),
